@@ -1094,7 +1094,13 @@ def dyn_cases(ctx, tab, pkg, rt):
     for q, n, i in expo:
         a = tab['aliases'][i]
         exp = documented_replacement(tab, pkg, a)
-        for v in variants():
+        vs = variants()
+        hit = py_mro_lookup(tab, q, a['new'])
+        plain = (q != f'{a["mod"]}:{a["owner"]}' and hit and hit[1][0] == 'Fn' and hit[1][1] == a['captured'])
+        if ctx.quick and plain:
+            # an inheriting class that does not redefine the replacement: one variant is enough in the quick tier
+            vs = [rng.choice(vs)]
+        for v in vs:
             cases.append({'cls': q, 'mod': q.split(':')[0], 'old': n, 'new': exp, 'variant': v, 'seed': rng.randrange(10 ** 6),
                           'alias': alias_key(a)})
     for i, a in enumerate(tab['aliases']):
@@ -1331,6 +1337,40 @@ def stream_kwloop(ctx):
 
 
 # --------------------------------------------------------------------------------- run / replay
+def hygiene(ctx):
+    """grep gate on the files of this property (no axioms / admits / guard switches)"""
+    from common import ROCQ
+    bad = re.compile(r'\b(Axiom|Axioms|Parameter|Parameters|Conjecture|Admitted|admit|Hypothesis|Variable)\b|Unset\s+Guard|type-in-type|'
+                     r'\bhammer\b|native_compute')
+    for rel_ in ('Model/Alias.v', 'Proofs/AliasP.v', 'Properties/C20.v', 'Gen/AliasTable.v'):
+        p = ROCQ / rel_
+        if not p.exists():
+            continue
+        txt = re.sub(r'\(\*.*?\*\)', '', p.read_text(), flags=re.S)
+        in_section = 0
+        for ln in txt.splitlines():
+            if re.match(r'\s*Section\b', ln):
+                in_section += 1
+            if re.match(r'\s*End\b', ln) and in_section:
+                in_section -= 1
+            m = bad.search(ln)
+            if m and not (m.group(1) in ('Variable', 'Hypothesis') and in_section):
+                ctx.broken.append({'kind': 'obligation', 'name': f'{rel_}:hygiene', 'detail': f'forbidden token in: {ln.strip()[:120]}'})
+
+
+def coqchk(ctx):
+    import subprocess
+    from common import ROCQ, clean_env
+    try:
+        r = subprocess.run(['coqchk', '-silent', '-o', '-Q', str(ROCQ), 'BV', 'BV.Properties.C20'], capture_output=True, text=True,
+                           timeout=1200, env=clean_env(), cwd=str(ROCQ))
+        ctx.notes['coqchk'] = {'rc': r.returncode, 'tail': (r.stdout + r.stderr)[-400:]}
+        if r.returncode != 0:
+            ctx.broken.append({'kind': 'obligation', 'name': 'coqchk:Properties/C20', 'detail': (r.stdout + r.stderr)[-800:]})
+    except subprocess.TimeoutExpired:
+        ctx.notes['coqchk'] = {'rc': None, 'tail': 'timeout after 1200 s (not a verdict)'}
+
+
 def run(ctx):
     ctx.assumptions += ASSUME
     ctx.trusted += TRUSTED
@@ -1352,8 +1392,11 @@ def run(ctx):
         ctx.tie_broken('py2v:AliasTable', str(e))
     import time
     t = time.time()
-    ctx.build()
+    hygiene(ctx)
+    b = ctx.build()
     ctx.notes['wall_build_s'] = round(time.time() - t, 1)
+    if b.ok and not ctx.quick:
+        coqchk(ctx)
 
     def timed(name, f, *a):
         t0 = time.time()
